@@ -130,8 +130,9 @@ def rand_centers(rng, n, cls=None, scale=1.5, offset=True):
         # the whole system far from the coordinate origin (finite-difference displaced copies, floating functions):
         # nearly coincident centres then differ by less than 1e-5 x |coordinate|
         d = rng.normal(size=3)
-        pts = pts + d / np.linalg.norm(d) * float(rng.uniform(8.0, 30.0))
-        cls = cls + "+offset"
+        far = rng.random() < 0.25
+        pts = pts + d / np.linalg.norm(d) * float(rng.uniform(300.0, 3000.0) if far else rng.uniform(8.0, 30.0))
+        cls = cls + ("+offset-huge" if far else "+offset")
     return [[float(v) for v in p] for p in pts], "geom:" + cls
 
 
